@@ -1,6 +1,6 @@
 #!/bin/sh
 # usage: seedcollect.sh <ID> : copies a finished sub-agent's deliverables to seeded/<ID>/, sets a clean demo_cmd, confirms it independently
-ID=$1; OUT=/verif/seeded/$ID; mkdir -p $OUT; cp /tmp/seed-$ID-scratch/out/* $OUT/ || exit 2
+ID=$1; OUT=/verif/seeded/$ID; mkdir -p $OUT; cp -r /tmp/seed-$ID-scratch/out/* $OUT/ || exit 2
 python3 - "$ID" <<'PY'
 import json,sys,glob,os
 i=sys.argv[1]; p='/verif/seeded/%s/meta.json'%i; m=json.load(open(p))
